@@ -1276,29 +1276,42 @@ def _map_iter(I, ci, m):
     return map_iter(peel(m), by_ref=True)
 
 
+def _hash_perm(mm):
+    """iteration order of a std hash container (environment-dependent only under the two-environment harness)"""
+    import models_iter as MI
+    if MI.ORDER_HOOK[0] is not None and mm.kind in ('HashMap', 'HashSet') and len(mm.entries) >= 2:
+        p = MI.ORDER_HOOK[0](mm)
+        if p is not None:
+            return p
+    return list(range(len(mm.entries)))
+
+
 @model(*_mapm('keys'))
 def _map_keys(I, ci, m):
     from models_iter import ListIter
-    return ListIter([ValPtr(k) for k, _ in peel(m).entries], kind='Keys')
+    mm = peel(m)
+    return ListIter([ValPtr(mm.entries[i][0]) for i in _hash_perm(mm)], kind='Keys')
 
 
 @model(*_mapm('values'))
 def _map_values(I, ci, m):
     from models_iter import ListIter
     mm = peel(m)
-    return ListIter([MapValPtr(mm, i) for i in range(len(mm.entries))], kind='Values')
+    return ListIter([MapValPtr(mm, i) for i in _hash_perm(mm)], kind='Values')
 
 
 @model(*_mapm('into_keys'))
 def _map_into_keys(I, ci, m):
     from models_iter import ListIter
-    return ListIter([k for k, _ in peel(m).entries], kind='IntoKeys')
+    mm = peel(m)
+    return ListIter([mm.entries[i][0] for i in _hash_perm(mm)], kind='IntoKeys')
 
 
 @model(*_mapm('into_values'))
 def _map_into_values(I, ci, m):
     from models_iter import ListIter
-    return ListIter([v for _, v in peel(m).entries], kind='IntoValues')
+    mm = peel(m)
+    return ListIter([mm.entries[i][1] for i in _hash_perm(mm)], kind='IntoValues')
 
 
 @model('IndexMap::get_index_of', 'IndexSet::get_index_of')
